@@ -4,6 +4,11 @@
 //! order, an element without the trailing `[n]` is skipped (it does not end the
 //! iteration), an empty / out-of-range container gives an empty result.
 //! Direct calls on the real iterator (no context, no compiled closure).
+//!
+//! NONE OF THESE IS REGISTERED: measured no result in 300-1500 s / > 13 GB even
+//! for an empty array, with and without the mem::drop stub: every pop / drop of a
+//! stacked `FieldIndexIterator` explores the BTreeMap tear-down of `LhsValue::Map`
+//! (CBMC does not fold the variant tag of values moved into the stack vector).
 use super::super::*;
 use crate::lhs_types::verif_kani::common::{array_borrowed, array_owned};
 
@@ -40,14 +45,15 @@ fn rows3(r0: LhsValue<'static>, r1: LhsValue<'static>, r2: LhsValue<'static>) ->
 fn expect_int(it: &mut MapEachIterator<'_, '_>, want: i64, msg: &'static str) {
     match it.next() {
         Some(LhsValue::Int(v)) => {
-            assert!(v == want, "{}", msg);
+            let _ = msg;
+            assert!(v == want, "the next item is the expected element");
         }
         Some(other) => {
             std::mem::forget(other);
-            assert!(false, "{}", msg);
+            assert!(false, "the next item is an element of the expected kind");
         }
         None => {
-            assert!(false, "{}", msg);
+            assert!(false, "the iteration does not end before the expected element");
         }
     }
 }
@@ -56,8 +62,9 @@ fn expect_end(it: &mut MapEachIterator<'_, '_>, msg: &'static str) {
     match it.next() {
         None => {}
         Some(other) => {
+            let _ = msg;
             std::mem::forget(other);
-            assert!(false, "{}", msg);
+            assert!(false, "the iteration yields nothing beyond the expected elements");
         }
     }
 }
